@@ -230,9 +230,9 @@ def opSpecOptimum : J.Op := fun j => do
 def opSpecLocalOpt : J.Op := fun j => do
   let p ← J.field j "prob" tableProb
   let decn ← J.field j "decn" (J.list J.int)
-  let better := betterExchanges (evalD p) TableProb.vkey p.space decn
-  pure <| J.obj [("ok", J.ofBool (localOptB (evalD p) TableProb.vkey p.space decn)),
-    ("ok_raw", J.ofBool (localOptB (evalD p) TableProb.key p.space decn)),
+  let better := betterExchanges (evalD p) TableProb.key p.space decn
+  pure <| J.obj [("ok", J.ofBool (localOptB (evalD p) TableProb.key p.space decn)),
+    ("ok_prerepair", J.ofBool (localOptB (evalD p) TableProb.keyPrerepair p.space decn)),
     ("n_neighbours", J.ofNat (decn.length * (complement p.space decn).length)),
     ("witness", J.ofList (fun ij => J.ofList J.ofNat [ij.1, ij.2]) (better.take 1))]
 
